@@ -1,7 +1,14 @@
 package sim
 
 import (
+	"encoding/json"
+	"fmt"
+	"os"
+	"path/filepath"
 	"testing"
+	"time"
+
+	"verifharness/lab"
 )
 
 func entWeights() map[string]int {
@@ -207,6 +214,88 @@ var cfgC16 = reg(PropCfg{
 })
 
 func TestC16(t *testing.T) { RunProperty(t, cfgC16) }
+var cfgC20 = reg(PropCfg{
+	ID: "C20",
+	Profile: &Profile{Weights: map[string]int{EntRaise: 14, EntDecide: 20, EntWL: 8, WrkReg: 12, WrkRec: 6, BcnReg: 12, BcnRec: 6, StrCreate: 16, StrClaim: 4, StrCancel: 3, BankSend: 2},
+		MinBlocks: 6, MaxBlocks: 25, MaxTxs: 6, MaxOps: 2, PUpper: 10, PActor: 3, PNamed: 1, PFault: 1, PExec: 3, PGovParams: 3, PBadRef: 2, ValidParams: true, TinyLimits: true},
+	Rule: "history reaching a committed state in which a filter matches a strict, non-empty subset of a collection and a list query needs >= 2 pages",
+	NonTrivial: func(w *World) bool { return w.Classes["c20.filter-strict-subset"] > 0 && w.Classes["c20.multi-page"] > 0 },
+	MinClasses: map[string]int{"c20.filter-strict-subset": 100, "c20.multi-page": 500},
+	Assume:     []string{"'stored items' are read through the keepers' own iterators on committed state; address filters are given in canonical spelling and match by account", "the whitelist query is unpaginated by design", "page plans (limit, key/offset, count_total, reverse) and filter values cycle deterministically"},
+})
+
+func TestC20(t *testing.T) { RunProperty(t, cfgC20) }
+var cfgC15 = reg(PropCfg{
+	ID: "C15",
+	Profile: &Profile{Weights: map[string]int{EntRaise: 12, EntDecide: 22, EntWL: 4, WrkReg: 6, WrkRec: 14, WrkPur: 3, BcnReg: 5, BcnRec: 12, BcnPur: 3, StrCreate: 8, StrClaim: 6, StrTopUp: 2, StrUpdate: 1, StrCancel: 2, BankSend: 3},
+		MinBlocks: 12, MaxBlocks: 45, MaxTxs: 5, MaxOps: 2, PUpper: 5, PActor: 3, PNamed: 1, PFault: 1, PExec: 4, PGovParams: 6, PBadRef: 2, ValidParams: true, TinyLimits: true, Vesting: true, LongTime: true},
+	Rule: "round trip at an export point whose state holds >=1 raised/accepted order and >=1 funded stream and (>=1 pruned registration or >=1 account with spent eFUND), followed by a continuation on both chains",
+	PerCase: c15PerCase,
+	MinClasses: map[string]int{"c15.import-ok": 50, "c15.export-with-funded-stream": 20, "c15.export-with-order-in-flight": 20, "c15.continuation-tx": 200},
+	Assume:     []string{"the export point is after two thirds of the generated history; the importing node uses default options (genesis invariants on)", "ModuleBasics.ValidateGenesis on the export is not asserted", "histories never reach the 20,000-record export cap (a directed case covers it in the thorough tier)"},
+})
+
+func TestC15(t *testing.T) { RunProperty(t, cfgC15) }
+var cfgC01 = reg(PropCfg{
+	ID: "C01",
+	Profile: &Profile{Weights: mixedWeights(), MinBlocks: 3, MaxBlocks: 22, MaxTxs: 5, MaxOps: 3, PUpper: 6, PActor: 8, PNamed: 2, PFault: 5, PExec: 8,
+		PGovParams: 8, PBadRef: 5, Vesting: true, TinyLimits: true, BigAmounts: true, LongTime: true, GasSweep: true, MultiPct: 20, PCheck: 8, Crashes: true, EntDenomChange: false},
+	Rule: "history with >=1 successful custom-module tx and >=1 failed tx, executed on a second node that differs in node-local options and/or is restarted inside a block that already delivered a tx",
+	PerCase: c01PerCase,
+	MinClasses: map[string]int{"c01.restarts": 50, "c01.restarts-after-tx": 10, "c01.ok-custom-tx": 300, "c01.failed-tx": 200},
+	Assume:     []string{"crash points inside Commit are not generated (not in the property's list of restart points)", "only MemDB and goleveldb are available in this sandbox", "Log, events and Info of responses are not compared (not consensus data)", "wall-clock independence is tested at seconds granularity by re-executing recorded histories after the clock has advanced by >= 2 s, and in a second OS process (thorough)"},
+})
+
+func TestC01(t *testing.T) {
+	c01Later = nil
+	start := time.Now()
+	RunProperty(t, cfgC01)
+	if t.Failed() || len(c01Later) == 0 {
+		return
+	}
+	// wall-clock independence: the same recordings once more, at least two seconds later
+	for time.Since(start) < 2100*time.Millisecond {
+		time.Sleep(100 * time.Millisecond)
+	}
+	ev := NewEvidence("C01", "")
+	defer ev.Flush()
+	for i, rec := range c01Later {
+		if msg, _ := replayRecording(rec, lab.NodeOpts{DB: "mem"}, false, "node B' (later wall clock)"); msg != "" {
+			fmt.Printf("C01-LATER-MISMATCH recording %d: %s\n", i, msg)
+			dir := os.Getenv("VERIF_REPLAY_DIR")
+			if dir != "" {
+				b, _ := json.MarshalIndent(map[string]interface{}{"property": "C01", "findings": []Finding{{Prop: "C01", Msg: msg}}, "recording": rec}, "", " ")
+				os.WriteFile(filepath.Join(dir, "C01-candidate.json"), b, 0o644)
+			}
+			t.Fatalf("C01 violated: %s", msg)
+		}
+		ev.Count("c01.later-wall-clock-replays", 1)
+	}
+	ev.Prop = "C01"
+	os.Setenv("VERIF_SHARD", os.Getenv("VERIF_SHARD")+"-later")
+}
+
+// TestC01OtherProcess is the child side of the cross-process comparison.
+func TestC01OtherProcess(t *testing.T) {
+	path := os.Getenv("VERIF_C01_RECORDING")
+	if path == "" {
+		t.Skip()
+	}
+	b, err := os.ReadFile(path)
+	if err != nil {
+		t.Fatal(err)
+	}
+	var rec Recording
+	if err := json.Unmarshal(b, &rec); err != nil {
+		t.Fatal(err)
+	}
+	if msg, _ := replayRecording(&rec, lab.NodeOpts{DB: "level", Pruning: "nothing"}, false, "node C (second OS process, GOMAXPROCS=1)"); msg != "" {
+		fmt.Println("C01-OTHER-PROCESS-MISMATCH: " + msg)
+		return
+	}
+	fmt.Println("C01-OTHER-PROCESS-OK")
+}
+
 func TestC06(t *testing.T) { RunProperty(t, cfgC06) }
 func TestC07(t *testing.T) { RunProperty(t, cfgC07) }
 func TestC08(t *testing.T) { RunProperty(t, cfgC08) }
